@@ -62,9 +62,49 @@ def shards(tier):
     return 16
 
 
+class PlainResource:
+    """What a loader's createResource() may return: an object with 'file',
+    'url', 'close()' - and nothing borrowed from the file."""
+
+    closed = False
+
+    def __init__(self, file, url):
+        self.file = file
+        self.url = url
+
+    def close(self):
+        if self.file is not None:
+            self.file.close()
+            self.file = None
+            self.closed = True
+
+    def __enter__(self):
+        return self
+
+    def __exit__(self, *exc):
+        self.close()
+        return False
+
+
+_LST = [0]
+
+
+def own_resource_loader():
+    import ZConfig.loader
+
+    class OwnResources(ZConfig.loader.SchemaLoader):
+        def createResource(self, file, url):
+            return PlainResource(file, url)
+    return OwnResources()
+
+
 def load_schema_text(xml):
     import ZConfig
+    _LST[0] += 1
     try:
+        if _LST[0] % 4 == 0:
+            # through a loader that makes resource objects of its own
+            return own_resource_loader().loadFile(io.StringIO(xml)), None
         return ZConfig.loadSchemaFile(io.StringIO(xml)), None
     except ZConfig.SchemaError as e:
         return None, ("SchemaError", str(e)[:120])
@@ -88,6 +128,8 @@ def load_schema_path(path):
                     return ZConfig.loadSchemaFile(f), None
             finally:
                 os.chdir(old)
+        if _LSP[0] % 3 == 1:
+            return own_resource_loader().loadURL(path), None
         return ZConfig.loadSchema(path), None
     except ZConfig.SchemaError as e:
         return None, ("SchemaError", str(e)[:120])
